@@ -5,7 +5,7 @@ PROP = dict(
     level_text="Relational monitor on the real parser and writer: d = parse(T), d2 = parse(print(d)); keyword sequence, record and "
                "item structure, integers, strings, default flags must be identical, doubles equal to the printed precision "
                "(1e-9 relative, the writer prints 10 significant digits), and print(d2) == print(d). T ranges over every generatable "
-               "keyword of the tree under test (all size classes, hostile strings, defaults everywhere) and the shipped decks.",
+               "keyword of the tree under test (all size classes, hostile strings, defaults everywhere), complete generated models (arrays, tables, UDQ expressions, ACTIONX blocks, schedule keywords written through one writer object) and the shipped decks.",
     level_note="Strict parse context for generated decks; shipped decks are parsed with an all-IGNORE context on both sides. "
                "Keywords the generator cannot make parseable are counted and skipped.",
     technique="round-trip (print o parse) relational monitor over a reflective keyword grammar; ASan/UBSan replica",
@@ -14,6 +14,7 @@ PROP = dict(
     stages=[
         dict(id="gen", harness="c19_print", flavour="plain", cases={Q: 40000, T: 600000}, timeout={Q: 900, T: 7200}, args=["mode=gen"]),
         dict(id="shipped", harness="c19_print", flavour="plain", cases={Q: 200, T: 200}, timeout={Q: 900, T: 3600}, args=["mode=shipped"]),
+        dict(id="models", harness="c19_print", flavour="plain", cases={Q: 1200, T: 40000}, timeout={Q: 900, T: 7200}, args=["mode=models"]),
         dict(id="gen_asan", harness="c19_print", flavour="asan", cases={Q: 3000, T: 30000}, timeout={Q: 900, T: 7200}, args=["mode=gen"]),
     ],
     min_nontrivial={Q: 10000, T: 150000},
